@@ -130,6 +130,39 @@ func c13Oddity(t *rapid.T, kind string, top *gen.Node) []byte {
 	return top.Encode()
 }
 
+// drawTooBig draws a non-negative integer that does not fit in `bits` bits: the first values past the
+// field, the usual machine limits, and in-range low bits below a set bit at any higher position (so a
+// range check done at the wrong width is visible).
+func drawTooBig(t *rapid.T, bits uint) int64 {
+	low := int64(rapid.Uint64Range(0, 1<<bits-1).Draw(t, "low"))
+	switch rapid.IntRange(0, 3).Draw(t, "bigkind") {
+	case 0:
+		return int64(1)<<bits + int64(rapid.SampledFrom([]int{0, 1, 255}).Draw(t, "past"))
+	case 1:
+		return rapid.SampledFrom([]int64{65535 + 1, 1 << 20, 1<<31 - 1, 1 << 31, 1<<32 - 1, 1 << 32, 1<<63 - 1}).Draw(t, "limit")
+	default:
+		shift := uint(rapid.IntRange(int(bits), 62).Draw(t, "shift"))
+		hi := int64(rapid.IntRange(1, 127).Draw(t, "hi")) << shift
+		if hi <= 0 || hi>>shift == 0 {
+			hi = 1 << shift
+		}
+		return (hi | low) & (1<<63 - 1)
+	}
+}
+
+// drawNegative draws a negative integer: small ones, and ones whose low 8/16/32 bits look like a valid value.
+func drawNegative(t *rapid.T, small int) int64 {
+	if rapid.Bool().Draw(t, "smallneg") {
+		return -int64(rapid.IntRange(1, small).Draw(t, "neg"))
+	}
+	shift := uint(rapid.SampledFrom([]int{8, 16, 24, 32, 40, 48, 56, 63}).Draw(t, "negshift"))
+	low := int64(rapid.IntRange(0, 255).Draw(t, "neglow"))
+	if shift == 63 {
+		return -1<<63 + low
+	}
+	return -(int64(rapid.IntRange(1, 127).Draw(t, "neghi")) << shift) + low
+}
+
 func c13Mutate(t *rapid.T, kind string, top *gen.Node, s *gen.Stream) (der []byte, nExt int, include bool) {
 	nExt, include = 6, true
 	tcb := tcbNode(top)
@@ -146,15 +179,15 @@ func c13Mutate(t *rapid.T, kind string, top *gen.Node, s *gen.Stream) (der []byt
 	}
 	switch kind {
 	case "comp-256":
-		tcb.Kids[ci].Kids[1] = gen.IntMin(int64(rapid.SampledFrom([]int{256, 257, 511, 65535, 1 << 20}).Draw(t, "big")))
+		tcb.Kids[ci].Kids[1] = gen.IntMin(drawTooBig(t, 8))
 	case "comp-neg":
-		tcb.Kids[ci].Kids[1] = gen.IntMin(int64(-rapid.IntRange(1, 300).Draw(t, "neg")))
+		tcb.Kids[ci].Kids[1] = gen.IntMin(drawNegative(t, 300))
 	case "comp-huge":
 		tcb.Kids[ci].Kids[1] = gen.IntRaw(append([]byte{0x7f}, s.Bytes(rapid.IntRange(8, 12).Draw(t, "w"))...))
 	case "pcesvn-65536":
-		tcb.Kids[16].Kids[1] = gen.IntMin(int64(rapid.SampledFrom([]int{65536, 65537, 1 << 24, 1 << 31}).Draw(t, "big")))
+		tcb.Kids[16].Kids[1] = gen.IntMin(drawTooBig(t, 16))
 	case "pcesvn-neg":
-		tcb.Kids[16].Kids[1] = gen.IntMin(int64(-rapid.IntRange(1, 70000).Draw(t, "neg")))
+		tcb.Kids[16].Kids[1] = gen.IntMin(drawNegative(t, 70000))
 	case "int-nonminimal":
 		tcb.Kids[ci].Kids[1] = gen.IntRaw([]byte{0x00, byte(rapid.IntRange(0, 127).Draw(t, "v"))})
 	case "int-empty":
